@@ -419,6 +419,7 @@ func init() {
 			{"array-max", "every ReadArray of the node's decoders passes the maximum its format allows (ReadArray allocates for the announced count before reading an element); database-only readers are tabled", ruleArrayMax},
 			{"decoded-loop", "a loop whose trip count was read from the input is entered only behind an ordering comparison of the count with a limit, or leaves as soon as the reader has failed", ruleDecodedLoop},
 			{"limit-used", "every maximum a wire package declares (Max*/max* constant) is mentioned by non-test code of the module: a declared bound that nothing enforces leaves the decoder with the reader's defaults", func(c *Ctx) { ruleLimitUsed(c, "pkg/io", "pkg/network", "pkg/network/payload", "pkg/network/capability", "pkg/consensus", "pkg/core/transaction", "pkg/core/block", "pkg/core/state", "pkg/core/mpt", "pkg/smartcontract/nef", "pkg/smartcontract/manifest", "pkg/vm/stackitem", "pkg/core/interop/runtime", "pkg/config/limits") }},
+			{"param-used", "in the wire packages every named parameter of a size-reporting function (name contains Size, integer result, signature not imposed by an interface) is used by the body: a size computed without the value the caller asked about is the size of something else", func(c *Ctx) { ruleParamUsed(c, "pkg/core/block", "pkg/core/transaction", "pkg/network/payload", "pkg/network", "pkg/io", "pkg/core/state", "pkg/consensus", "pkg/smartcontract/nef", "pkg/smartcontract/manifest", "pkg/vm/stackitem", "pkg/core/mpt") }},
 			{"codec-symmetry", "for every type with EncodeBinary and DecodeBinary the sequences of wire primitives on the writer/reader agree token by token when both are straight-line; otherwise the sets of primitive kinds agree", ruleCodecSymmetry},
 			{"codec-guards", "where the encoder and the decoder of one type both guard wire operations by comparing the same field with constants, the two sets of constants agree", ruleCodecGuards},
 			{"decode-context", "a decoder of a type whose wire shape depends on a context field (read, never assigned by its DecodeBinary: the consensus state-root flag) hands the context on to every nested value of a context-dependent type it creates", ruleDecodeContext},
